@@ -63,9 +63,17 @@ func evalFunctionCall(vm *r.VM, expr *syntax.FuncCallExpr) (r.Element, error) {
 func execMethodFunction(vm *r.VM, root r.Element, funcName *r.IDName, params []r.Element) (r.Element, error) {
 	switch robj := root.(type) {
 	case *value.Object:
-		_, refModule, err := vm.FindElementWithModule(r.NewIDName(robj.GetObjectName()))
-		if err != nil {
-			return nil, err
+		// the methods of an object run in the module that declares its class - also where
+		// the class NAME is not visible (an object handed out by an imported method) or
+		// where the same name denotes another class
+		refModule := robj.GetModule()
+		if refModule == nil {
+			// built-in classes: resolve the name
+			_, nameModule, err := vm.FindElementWithModule(r.NewIDName(robj.GetObjectName()))
+			if err != nil {
+				return nil, err
+			}
+			refModule = nameModule
 		}
 		fnCallFrame := r.NewFunctionCallFrame(refModule, root)
 		vm.PushCallFrame(fnCallFrame)
